@@ -31,9 +31,10 @@ use std::path::PathBuf;
 use std::sync::Arc;
 use std::time::Duration;
 
-pub const STREAM_NAMES: [&str; 6] = ["str-a", "strb", "s-c", "s_d", "se9", "stream-f"];
-pub const TOPIC_NAMES: [&str; 6] = ["top-a", "topb", "t-c", "t_d", "te9", "topic-f"];
-pub const GROUP_NAMES: [&str; 5] = ["grp-a", "grpb", "g-c", "g_d", "ge9"];
+// boundary lengths included: 1, 2 and 255 characters (the decoders refused 1-2 character names before 8d48925)
+pub const STREAM_NAMES: [&str; 8] = ["str-a", "strb", "s-c", "s_d", "se9", "stream-f", "x", "sabcdefghij-0123456789_klmnopqrstuvwxyzabcdefghij-0123456789_klmnopqrstuvwxyzabcdefghij-0123456789_klmnopqrstuvwxyzabcdefghij-0123456789_klmnopqrstuvwxyzabcdefghij-0123456789_klmnopqrstuvwxyzabcdefghij-0123456789_klmnopqrstuvwxyzabcdefghij-0123456789_klmn"];
+pub const TOPIC_NAMES: [&str; 8] = ["top-a", "topb", "t-c", "t_d", "te9", "topic-f", "y2", "tabcdefghij-0123456789_klmnopqrstuvwxyzabcdefghij-0123456789_klmnopqrstuvwxyzabcdefghij-0123456789_klmnopqrstuvwxyzabcdefghij-0123456789_klmnopqrstuvwxyzabcdefghij-0123456789_klmnopqrstuvwxyzabcdefghij-0123456789_klmnopqrstuvwxyzabcdefghij-0123456789_klmn"];
+pub const GROUP_NAMES: [&str; 7] = ["grp-a", "grpb", "g-c", "g_d", "ge9", "g", "gabcdefghij-0123456789_klmnopqrstuvwxyzabcdefghij-0123456789_klmnopqrstuvwxyzabcdefghij-0123456789_klmnopqrstuvwxyzabcdefghij-0123456789_klmnopqrstuvwxyzabcdefghij-0123456789_klmnopqrstuvwxyzabcdefghij-0123456789_klmnopqrstuvwxyzabcdefghij-0123456789_klmn"];
 pub const USER_NAMES: [&str; 5] = ["ulla", "uwe", "u-mo", "u_na", "ute9"];
 pub const TOKEN_NAMES: [&str; 4] = ["tok-a", "tok-b", "tok_c", "tokd"];
 pub const N_CLIENTS: usize = 3;
